@@ -145,6 +145,11 @@ def run(fx, tier):
     if 'R-DOM' not in v.rules:
         v.rule('R-DOM', 'parked acknowledgements: purged on exactly the paths that start a stream write, only by the writer; stored only by dispatch(); used once')
     fast_reply_rules(fx, v, 'C03')
+    # a PUBREC/PUBCOMP judged inadmissible makes the sender re-send: the tables decide which PUBREC counts as received (shared with C20)
+    from c20 import table_rows_rule
+    if 'R-TABLE' not in v.rules:
+        v.rule('R-TABLE', 'reason-code tables of the packets this property handles equal the MQTT 5 tables')
+    table_rows_rule(fx, v, 'C03', ('pubrec', 'pubcomp'))
     v.expect_min('R-CGRAPH', 30, 'paths of QoS 2 states')
     v.expect_min('R-FLOW', 40, 'send paths')
     v.expect_min('R-OWN', 10, 'set_dup callers/writes × TUs')
